@@ -115,6 +115,7 @@ type Config struct {
 	PAdvance    int     `json:"padvance,omitempty"`
 	Quanta      []int64 `json:"quanta,omitempty"`
 	PoolDropPct int     `json:"pool_drop,omitempty"`
+	PStall      int     `json:"pstall,omitempty"` // F2: per-mille chance of a long preemption at a scheduling decision
 	MaxSteps    int     `json:"max_steps,omitempty"`
 
 	M3   *M3Cfg   `json:"m3,omitempty"`
